@@ -8,7 +8,9 @@
 //! The store is the real crate with one token rewritten: it reads the time from a settable clock
 //! (`verif_clock`, see lib/vf/session.py) instead of `Timestamp::now()`, so that a counterexample
 //! that needs the clock to stand exactly on a deadline can be replayed: every record is created at
-//! instant `deadline - 1` with a ttl of one second, then the clock is set to the script's `now`.
+//! instant `deadline - 1 ms` with a ttl of one millisecond, then the clock is set to the script's `now`.
+//! All instants in the script are milliseconds (`_deadline_ms`, `_origin.now_ms`, `op.ttl_ms`); scripts
+//! written before the clock got sub-second resolution carry seconds (`_deadline`, `_origin.now`).
 use pavex_session::store::errors::*;
 use pavex_session::store::{SessionRecordRef, SessionStorageBackend};
 use pavex_session::SessionId;
@@ -50,13 +52,13 @@ fn live(m: &Model, l: &str, t: i64) -> Option<Map> {
 async fn run(script: &Value) -> Result<(), Fail> {
     let s = InMemorySessionStore::new();
     let mut model: Model = BTreeMap::from([("A".to_string(), None), ("B".to_string(), None)]);
-    let now = script["_origin"]["now"].as_i64().unwrap_or(500);
+    let now = script["_origin"]["now_ms"].as_i64().or(script["_origin"]["now"].as_i64().map(|s| s * 1000)).unwrap_or(500_000);
     for r in script["records"].as_array().cloned().unwrap_or_default() {
         let l = r["id"].as_str().unwrap_or("A").to_string();
         let st = map_of_json(&r["state"]);
-        let deadline = r["_deadline"].as_i64().unwrap_or(if r["live"].as_bool().unwrap_or(true) { now + 50 } else { now });
+        let deadline = r["_deadline_ms"].as_i64().or(r["_deadline"].as_i64().map(|s| s * 1000)).unwrap_or(if r["live"].as_bool().unwrap_or(true) { now + 50_000 } else { now });
         verif_clock::set(deadline - 1);
-        s.create(&id_of(&l), SessionRecordRef { state: Cow::Owned(to_state(&st)), ttl: Duration::from_secs(1) })
+        s.create(&id_of(&l), SessionRecordRef { state: Cow::Owned(to_state(&st)), ttl: Duration::from_millis(1) })
             .await
             .map_err(|e| Fail(format!("script error: {e:?}")))?;
         model.insert(l, Some((st, deadline)));
@@ -69,7 +71,9 @@ async fn run(script: &Value) -> Result<(), Fail> {
     let to = op["to"].as_str().unwrap_or("B").to_string();
     let st = map_of_json(&op["state"]);
     let is_live = live(&model, &l, now).is_some();
-    let fresh = now + HOUR.as_secs() as i64;
+    // the ttl the operation is given: the script's, else one hour
+    let op_ttl = op["ttl_ms"].as_u64().map(Duration::from_millis).unwrap_or(HOUR);
+    let fresh = now + op_ttl.as_millis() as i64;
     match name {
         "load" => {
             let got = s.load(&id_of(&l)).await.unwrap();
@@ -77,11 +81,11 @@ async fn run(script: &Value) -> Result<(), Fail> {
             let got_state: Option<Map> = got.as_ref().map(|r| r.state.iter().map(|(k, v)| (k.to_string(), v.clone())).collect());
             check!(got_state == want, "load returned {got_state:?}, the reference map holds {want:?}");
             if let (Some(r), Some((_, d))) = (&got, &model[&l]) {
-                check!(r.ttl.as_secs() as i64 == d - now, "load reported a remaining ttl of {:?}, the record's deadline is {} s away", r.ttl, d - now);
+                check!(r.ttl.as_millis() as i64 == d - now, "load reported a remaining ttl of {:?}, the record's deadline is {} ms away", r.ttl, d - now);
             }
         }
         "create" => {
-            let r = s.create(&id_of(&l), SessionRecordRef { state: Cow::Owned(to_state(&st)), ttl: HOUR }).await;
+            let r = s.create(&id_of(&l), SessionRecordRef { state: Cow::Owned(to_state(&st)), ttl: op_ttl }).await;
             if is_live {
                 check!(matches!(r, Err(CreateError::DuplicateId(_))), "create on a live record returned {r:?}");
             } else {
@@ -90,7 +94,7 @@ async fn run(script: &Value) -> Result<(), Fail> {
             }
         }
         "update" => {
-            let r = s.update(&id_of(&l), SessionRecordRef { state: Cow::Owned(to_state(&st)), ttl: HOUR }).await;
+            let r = s.update(&id_of(&l), SessionRecordRef { state: Cow::Owned(to_state(&st)), ttl: op_ttl }).await;
             if is_live {
                 check!(r.is_ok(), "update failed on a live record: {r:?}");
                 model.insert(l.clone(), Some((st.clone(), fresh)));
@@ -99,7 +103,7 @@ async fn run(script: &Value) -> Result<(), Fail> {
             }
         }
         "update_ttl" => {
-            let r = s.update_ttl(&id_of(&l), HOUR).await;
+            let r = s.update_ttl(&id_of(&l), op_ttl).await;
             if is_live {
                 check!(r.is_ok(), "update_ttl failed on a live record: {r:?}");
                 let cur = model[&l].clone().unwrap().0;
@@ -139,14 +143,143 @@ async fn run(script: &Value) -> Result<(), Fail> {
         }
         other => return Err(Fail(format!("script error: unknown op {other}"))),
     }
-    // what an observer sees now, half a fresh ttl later, and two fresh ttls later
-    for t in [now, now + 1, now + 1800, now + 7200] {
+    // what an observer sees now, right before and at the new deadline, and much later
+    for t in [now, now + 1, fresh - 1, fresh, now + 1_800_000, now + 7_200_000] {
         verif_clock::set(t);
         for l in ["A", "B"] {
             let got = view(&s, l).await;
             let want = live(&model, l, t);
             check!(got == want, "after {name}, at instant {t} (operation at {now}): record {l} is observed as {got:?}, the reference map holds {want:?}");
         }
+    }
+    Ok(())
+}
+
+// ------------------------------------------------------------------------------------------------
+// Race mode (script["race"]): the concurrency clause. Two OS threads, each with its own current-thread
+// runtime, are released by a barrier and run one operation each on the same real store (real tokio
+// Mutex); the outcome - both results and what can be loaded afterwards - must equal the outcome of
+// one of the two sequential orders. States are padded with many extra keys so that an operation that
+// copies a state outside its critical section has a wide window. A race is probabilistic: a mismatch
+// in any round is a genuine violation, no mismatch in all rounds means "not reproduced".
+// ------------------------------------------------------------------------------------------------
+#[derive(Clone, Debug)]
+struct ROp {
+    name: String,
+    id: String,
+    to: String,
+    state: Map,
+    ttl_ms: i64,
+}
+fn rop(v: &Value) -> ROp {
+    ROp {
+        name: v["name"].as_str().unwrap_or("").to_string(),
+        id: v["id"].as_str().unwrap_or("A").to_string(),
+        to: v["to"].as_str().unwrap_or("B").to_string(),
+        state: map_of_json(&v["state"]),
+        ttl_ms: v["ttl_ms"].as_i64().unwrap_or(3_600_000),
+    }
+}
+/// 0 ok, 1 unknown id, 2 duplicate id, 7 anything else
+fn model_apply(m: &Model, o: &ROp, now: i64) -> (u8, Model) {
+    let mut m2 = m.clone();
+    let live_i = live(m, &o.id, now).is_some();
+    let fresh = Some((o.state.clone(), now + o.ttl_ms));
+    match o.name.as_str() {
+        "create" => {
+            if live_i { (2, m2) } else { m2.insert(o.id.clone(), fresh); (0, m2) }
+        }
+        "update" => {
+            if live_i { m2.insert(o.id.clone(), fresh); (0, m2) } else { (1, m2) }
+        }
+        "update_ttl" => {
+            if live_i { let cur = m[&o.id].clone().unwrap().0; m2.insert(o.id.clone(), Some((cur, now + o.ttl_ms))); (0, m2) } else { (1, m2) }
+        }
+        "delete" => {
+            if live_i { m2.insert(o.id.clone(), None); (0, m2) } else { (1, m2) }
+        }
+        _ => {
+            if live(m, &o.to, now).is_some() { (2, m2) } else if !live_i { (1, m2) } else {
+                let moved = m[&o.id].clone();
+                m2.insert(o.id.clone(), None);
+                m2.insert(o.to.clone(), moved);
+                (0, m2)
+            }
+        }
+    }
+}
+const PAD: usize = 20_000;
+fn padded(m: &Map) -> HashMap<Cow<'static, str>, Value> {
+    let mut s = to_state(m);
+    for i in 0..PAD {
+        s.insert(Cow::Owned(format!("pad{i}")), json!(i));
+    }
+    s
+}
+async fn exec_real(s: &InMemorySessionStore, o: &ROp, state: &HashMap<Cow<'static, str>, Value>) -> u8 {
+    let ttl = Duration::from_millis(o.ttl_ms as u64);
+    match o.name.as_str() {
+        "create" => match s.create(&id_of(&o.id), SessionRecordRef { state: Cow::Borrowed(state), ttl }).await { Ok(()) => 0, Err(CreateError::DuplicateId(_)) => 2, Err(_) => 7 },
+        "update" => match s.update(&id_of(&o.id), SessionRecordRef { state: Cow::Borrowed(state), ttl }).await { Ok(()) => 0, Err(UpdateError::UnknownIdError(_)) => 1, Err(_) => 7 },
+        "update_ttl" => match s.update_ttl(&id_of(&o.id), ttl).await { Ok(()) => 0, Err(UpdateTtlError::UnknownId(_)) => 1, Err(_) => 7 },
+        "delete" => match s.delete(&id_of(&o.id)).await { Ok(()) => 0, Err(DeleteError::UnknownId(_)) => 1, Err(_) => 7 },
+        _ => match s.change_id(&id_of(&o.id), &id_of(&o.to)).await { Ok(()) => 0, Err(ChangeIdError::UnknownId(_)) => 1, Err(ChangeIdError::DuplicateId(_)) => 2, Err(_) => 7 },
+    }
+}
+fn core_view(m: Option<Map>) -> Option<Map> {
+    m.map(|m| m.into_iter().filter(|(k, _)| !k.starts_with("pad")).collect())
+}
+fn run_race(script: &Value) -> Result<(), Fail> {
+    let now = script["_origin"]["now_ms"].as_i64().unwrap_or(500_000);
+    let ours = rop(&script["race"]["ours"]);
+    let other = rop(&script["race"]["other"]);
+    let rounds: usize = std::env::var("VERIF_RACE_ROUNDS").ok().and_then(|s| s.parse().ok()).unwrap_or(60);
+    let (st_ours, st_other) = (std::sync::Arc::new(padded(&ours.state)), std::sync::Arc::new(padded(&other.state)));
+    let rt = tokio::runtime::Builder::new_current_thread().enable_time().build().unwrap();
+    for round in 0..rounds {
+        let s = std::sync::Arc::new(InMemorySessionStore::new());
+        let mut model: Model = BTreeMap::from([("A".to_string(), None), ("B".to_string(), None)]);
+        for r in script["records"].as_array().cloned().unwrap_or_default() {
+            let l = r["id"].as_str().unwrap_or("A").to_string();
+            let st = map_of_json(&r["state"]);
+            let deadline = r["_deadline_ms"].as_i64().unwrap_or(if r["live"].as_bool().unwrap_or(true) { now + 50_000 } else { now });
+            verif_clock::set(deadline - 1);
+            rt.block_on(s.create(&id_of(&l), SessionRecordRef { state: Cow::Owned(padded(&st)), ttl: Duration::from_millis(1) }))
+                .map_err(|e| Fail(format!("script error: {e:?}")))?;
+            model.insert(l, Some((st, deadline)));
+        }
+        verif_clock::set(now);
+        let barrier = std::sync::Arc::new(std::sync::Barrier::new(2));
+        let spawn = |o: ROp, st: std::sync::Arc<HashMap<Cow<'static, str>, Value>>| {
+            let (s, b) = (s.clone(), barrier.clone());
+            std::thread::spawn(move || {
+                let rt = tokio::runtime::Builder::new_current_thread().enable_time().build().unwrap();
+                b.wait();
+                rt.block_on(exec_real(&s, &o, &st))
+            })
+        };
+        let (h1, h2) = (spawn(ours.clone(), st_ours.clone()), spawn(other.clone(), st_other.clone()));
+        let (r_ours, r_other) = (h1.join().unwrap(), h2.join().unwrap());
+        let (ra1, m1) = model_apply(&model, &other, now);
+        let (ro1, m1) = model_apply(&m1, &ours, now);
+        let (ro2, m2) = model_apply(&model, &ours, now);
+        let (ra2, m2) = model_apply(&m2, &other, now);
+        let mut explained = [r_ours == ro1 && r_other == ra1, r_ours == ro2 && r_other == ra2];
+        let mut seen = Vec::new();
+        for t in [now, now + ours.ttl_ms.min(other.ttl_ms) - 1, now + ours.ttl_ms.max(other.ttl_ms) + 1] {
+            verif_clock::set(t);
+            for l in ["A", "B"] {
+                let got = core_view(rt.block_on(view(&s, l)));
+                explained[0] &= got == live(&m1, l, t);
+                explained[1] &= got == live(&m2, l, t);
+                seen.push((t, l, got));
+            }
+        }
+        check!(
+            explained[0] || explained[1],
+            "round {round}: `{}` and `{}` issued concurrently returned codes ({r_ours}, {r_other}) and left {seen:?}: no sequential order of the two operations explains that (other first: ({ro1}, {ra1}); ours first: ({ro2}, {ra2}))",
+            ours.name, other.name
+        );
     }
     Ok(())
 }
@@ -162,7 +295,8 @@ fn main() {
         }
     };
     let rt = tokio::runtime::Builder::new_current_thread().enable_time().build().unwrap();
-    match rt.block_on(run(&script)) {
+    let outcome = if script["race"].is_object() { run_race(&script) } else { rt.block_on(run(&script)) };
+    match outcome {
         Ok(()) => println!("NOT REPRODUCED: every observation agrees with the reference map"),
         Err(Fail(msg)) if msg.starts_with("script error") => {
             eprintln!("{msg}");
